@@ -60,6 +60,9 @@ func (s *State) ParseConfig(data []byte, fName string) (
 }
 
 func checkRaw(c *PanConfig) error {
+	if c.Devices == nil {
+		return nil
+	}
 	re := regexp.MustCompile(`^r\d`)
 	for _, d := range c.Devices.Entries {
 		for _, v := range d.Vsys {
